@@ -24,8 +24,10 @@ away), an integer index out of range raises `IndexError`, `split` never yields a
 when empty parts were not asked for.
 
 Not modelled: the deprecated tag alias `emph` (renamed to `em` with a warning), tag names / URLs
-given as `Text` objects, slices with a step, compiled-regex separators for `split`
-(and therefore `abbreviate`), the deprecated pre-0.19 methods.
+given as `Text` objects, slices with a step, the deprecated pre-0.19 methods.
+Case mapping and `isalpha` are ASCII here; the interpreter's Unicode tables, `add_period(period)`,
+`==` against a value that is not a rich text, `split` at a compiled pattern and `abbreviate()` are in
+`Model/RichTextU.lean`.
 -/
 import PybtexModel.Model.Basic
 
